@@ -1,3 +1,14 @@
 #!/bin/bash
-# built out below
-exit 0
+# Builds the framework offline from files on disk: the instrumenter, and a warm Go build cache.
+set -e
+cd "$(dirname "$0")"
+. ./env.sh
+mkdir -p bin evidence replays .work
+(cd engine/vinstr && go build -o ../../bin/vinstr .)
+# warm the build cache (repository packages + harness dependencies)
+(cd "$VERIF_REPO" && go build ./... >/dev/null 2>&1 || true)
+./vcheck build selftest >/dev/null
+.work/build-selftest/selftest.bin > .work/selftest.out
+grep -q "rendezvous nosleep=false execs=4 " .work/selftest.out || { echo "scheduler selftest failed"; cat .work/selftest.out; exit 1; }
+rm -rf .work/build-selftest
+echo "setup ok"
